@@ -426,4 +426,320 @@ theorem blkDot_jA (w : ℕ → ℕ → ℝ) (X Y : Blk ℝ) (hY : BSymm Y) :
   ring
 
 
+
+
+theorem blkDot_kSum (w : ℕ → ℕ → ℝ) (X Y : Blk ℝ) :
+    blkDot X (kSum w Y) = blkDot Y (kSum w X) := by
+  simp only [blkDot, kSum, sumTo_eq_sum, Finset.sum_range_succ, Finset.sum_range_zero]
+  norm_num [kind, K_ind_4]
+  ring
+
+theorem blkDot_oneCenter (gss gsp gpp gp2 hsp : ℝ) (X Y : Blk ℝ) (hX : BSymm X) (hY : BSymm Y) :
+    blkDot X (symU (oneCenterTmp gss gsp gpp gp2 hsp Y)) = blkDot Y (symU (oneCenterTmp gss gsp gpp gp2 hsp X)) := by
+  simp only [blkDot, Finset.sum_range_succ, Finset.sum_range_zero]
+  norm_num [symU, oneCenterTmp, setAt, P_INDEX_3, P_OFF_I, P_OFF_J]
+  rw [hX 1 0, hX 2 0, hX 2 1, hX 3 0, hX 3 1, hX 3 2, hY 1 0, hY 2 0, hY 2 1, hY 3 0, hY 3 1, hY 3 2]
+  ring
+
+theorem blkDot_add (X U V : Blk ℝ) : blkDot X (symU (blkAdd U V)) = blkDot X (symU U) + blkDot X (symU V) := by
+  simp only [blkDot, symU_blkAdd, mul_add, Finset.sum_add_distrib]
+
+/-- `⟨X, G Y⟩ = ⟨Y, G X⟩` for symmetric two-atom matrices (diagonal blocks symmetric; the BA block
+    is the transpose of the AB block by representation): one-centre + two-centre J + K -/
+theorem G_self_adjoint (pa pb : Par ℝ) (w : ℕ → ℕ → ℝ) (X Y : Mat2 ℝ)
+    (hXa : BSymm X.a) (hXb : BSymm X.b) (hYa : BSymm Y.a) (hYb : BSymm Y.b) :
+    matDot X (gTwoAtoms pa pb w Y) = matDot Y (gTwoAtoms pa pb w X) := by
+  simp only [matDot, gTwoAtoms, twoCenterJK, blkDot_add]
+  rw [blkDot_jB w X.a Y.b hYb, blkDot_jA w X.b Y.a hYa, blkDot_jB w Y.a X.b hXb, blkDot_jA w Y.b X.a hXa,
+    blkDot_oneCenter _ _ _ _ _ X.a Y.a hXa hYa, blkDot_oneCenter _ _ _ _ _ X.b Y.b hXb hYb,
+    blkDot_kSum w X.ab Y.ab]
+  ring
+
+/-- pair symmetry `(μν|λσ) = (λσ|μν)` as far as the layout encodes it: the pair (A,B) owns ONE block
+    `w`; the Coulomb term of A (from the density on B) reads `w[t,k]` and the Coulomb term of B
+    (from the density on A) reads the SAME `w[t,k]` with the roles of the two packed indices
+    exchanged.  Operationally: `⟨X_A, J^A[Y_B]⟩ = ⟨Y_B, J^B[X_A]⟩`. -/
+theorem eri_pair_symmetry (w : ℕ → ℕ → ℝ) (X Y : Blk ℝ) (hX : BSymm X) (hY : BSymm Y) :
+    blkDot X (symU (twoCenterJK w X Y (fun _ _ => 0)).fA)
+      = blkDot Y (symU (twoCenterJK w X Y (fun _ _ => 0)).fB) := by
+  simp only [twoCenterJK]
+  rw [blkDot_jB w X Y hY, blkDot_jA w Y X hX]
+
+
+
+/-! ## 5. one-centre Fock terms -/
+
+/-- the published one-centre integrals have the full 8-fold permutational symmetry -/
+theorem oneCenterERI_symmetry (gss gsp gpp gp2 hsp : ℝ) : ∀ m < 4, ∀ n < 4, ∀ l < 4, ∀ s < 4,
+    oneCenterERI gss gsp gpp gp2 hsp m n l s = oneCenterERI gss gsp gpp gp2 hsp n m l s ∧
+    oneCenterERI gss gsp gpp gp2 hsp m n l s = oneCenterERI gss gsp gpp gp2 hsp m n s l ∧
+    oneCenterERI gss gsp gpp gp2 hsp m n l s = oneCenterERI gss gsp gpp gp2 hsp l s m n := by
+  intro m hm n hn l hl s hs
+  interval_cases m <;> interval_cases n <;> interval_cases l <;> interval_cases s <;>
+    simp [oneCenterERI]
+
+/-- the values of the one-centre integrals -/
+theorem oneCenterERI_values (gss gsp gpp gp2 hsp : ℝ) :
+    oneCenterERI gss gsp gpp gp2 hsp 0 0 0 0 = gss ∧ oneCenterERI gss gsp gpp gp2 hsp 0 0 2 2 = gsp ∧
+    oneCenterERI gss gsp gpp gp2 hsp 1 1 1 1 = gpp ∧ oneCenterERI gss gsp gpp gp2 hsp 1 1 3 3 = gp2 ∧
+    oneCenterERI gss gsp gpp gp2 hsp 0 2 0 2 = hsp ∧ oneCenterERI gss gsp gpp gp2 hsp 1 2 1 2 = 1 / 2 * (gpp - gp2) ∧
+    oneCenterERI gss gsp gpp gp2 hsp 0 1 0 2 = 0 ∧ oneCenterERI gss gsp gpp gp2 hsp 1 1 1 2 = 0 := by
+  norm_num [oneCenterERI]
+
+/-- the code's one-centre factors are the RHF NDDO contraction
+    `F_{μν} = Σ_{λσ} P_{λσ} [ (μν|λσ) − ½ (μλ|νσ) ]` over the published one-centre integrals, for an
+    arbitrary symmetric density block (all 16 entries of the mirrored block) -/
+theorem one_center_factors_published (gss gsp gpp gp2 hsp : ℝ) (P : Blk ℝ) (hP : BSymm P) :
+    ∀ i < 4, ∀ j < 4,
+    oneCenterFock gss gsp gpp gp2 hsp P i j
+      = ∑ l ∈ range 4, ∑ s ∈ range 4, P l s *
+          (oneCenterERI gss gsp gpp gp2 hsp i j l s - 1 / 2 * oneCenterERI gss gsp gpp gp2 hsp i l j s) := by
+  intro i hi j hj
+  interval_cases i <;> interval_cases j <;>
+    simp only [Finset.sum_range_succ, Finset.sum_range_zero] <;>
+    norm_num [oneCenterFock, symU, oneCenterTmp, setAt, P_INDEX_3, P_OFF_I, P_OFF_J, oneCenterERI] <;>
+    (try rw [hP 1 0]) <;> (try rw [hP 2 0]) <;> (try rw [hP 2 1]) <;> (try rw [hP 3 0]) <;>
+    (try rw [hP 3 1]) <;> (try rw [hP 3 2]) <;> ring
+
+/-- the explicit published expressions of the entries -/
+theorem one_center_entries (gss gsp gpp gp2 hsp : ℝ) (P : Blk ℝ) :
+    oneCenterFock gss gsp gpp gp2 hsp P 0 0 = P 0 0 * gss / 2 + (P 1 1 + P 2 2 + P 3 3) * (gsp - hsp / 2) ∧
+    oneCenterFock gss gsp gpp gp2 hsp P 0 1 = P 0 1 * (3 * hsp - gsp) / 2 ∧
+    oneCenterFock gss gsp gpp gp2 hsp P 1 0 = P 0 1 * (3 * hsp - gsp) / 2 ∧
+    oneCenterFock gss gsp gpp gp2 hsp P 1 1
+      = P 0 0 * (gsp - hsp / 2) + P 1 1 * gpp / 2 + (P 2 2 + P 3 3) * (5 * gp2 - gpp) / 4 ∧
+    oneCenterFock gss gsp gpp gp2 hsp P 1 2 = P 1 2 * (3 * gpp - 5 * gp2) / 4 := by
+  refine ⟨?_, ?_, ?_, ?_, ?_⟩ <;>
+    norm_num [oneCenterFock, symU, oneCenterTmp, setAt, P_INDEX_3, P_OFF_I, P_OFF_J] <;> ring
+
+
+
+section xh
+variable (ev r da db qa qb ρ0a ρ0b ρ1a ρ1b ρ2a ρ2b : ℝ)
+
+/-- heavy atom – hydrogen: the four integrals are the multipole sums against the monopole of H
+    (whatever dipole/quadrupole parameters are attached to the hydrogen) -/
+theorem riXH_eq_multipole_sums :
+    riXH Real.sqrt ev r da qa ρ0a ρ0b ρ1a ρ2a
+      = riXHSpec Real.sqrt ev r ⟨da, qa, ρ0a, ρ1a, ρ2a⟩ ⟨db, qb, ρ0b, ρ1b, ρ2b⟩ := by
+  simp only [riXH, riXHSpec, List.cons.injEq, and_true]
+  refine ⟨?_, ?_, ?_, ?_⟩ <;> nddo_ring
+
+/-- … and coincide with the first four heavy–heavy integrals -/
+theorem riXH_eq_riHH_prefix :
+    riXH Real.sqrt ev r da qa ρ0a ρ0b ρ1a ρ2a
+      = (riHH Real.sqrt ev r da db qa qb ρ0a ρ0b ρ1a ρ1b ρ2a ρ2b).take 4 := by
+  simp only [riXH, riHH, List.take_succ_cons, List.take_zero, List.cons.injEq, and_true]
+  refine ⟨?_, ?_, ?_, ?_⟩ <;> nddo_ring
+
+/-- hydrogen – hydrogen: the single integral is the kernel = monopole–monopole sum -/
+theorem riHyd_eq :
+    riHyd Real.sqrt ev r ρ0a ρ0b = ko Real.sqrt ev r (ρ0a + ρ0b) ∧
+    riHyd Real.sqrt ev r ρ0a ρ0b
+      = interact Real.sqrt ev r (dSS ⟨da, qa, ρ0a, ρ1a, ρ2a⟩) (dSS ⟨db, qb, ρ0b, ρ1b, ρ2b⟩) := by
+  constructor
+  · nddo_unfold
+  · nddo_ring
+end xh
+
+/-! ## 6. the additive terms `ρ₁`, `ρ₂` -/
+
+theorem sqrt_four_mul {x : ℝ} (_hx : 0 ≤ x) : Real.sqrt (4 * x) = 2 * Real.sqrt x := by
+  rw [show (4:ℝ) * x = 2 ^ 2 * x by ring, Real.sqrt_mul (by positivity), Real.sqrt_sq (by norm_num)]
+
+/-- the code's function of `d = 1/(2ρ)` in terms of `ρ`: `¼ (1/ρ − 1/√(D₁²+ρ²))` (atomic units) -/
+theorem hspOfD_of_rho {D ρ : ℝ} (hρ : 0 < ρ) :
+    hspOfD Real.sqrt D (0.5 / ρ) = 1 / 4 * (1 / ρ - 1 / Real.sqrt (D ^ 2 + ρ ^ 2)) := by
+  have h : 4.0 * sqr D + 1.0 / sqr (0.5 / ρ) = 4 * (D ^ 2 + ρ ^ 2) := by
+    simp only [sqr]; norm_num; field_simp; ring
+  simp only [hspOfD, isq, h, sqrt_four_mul (by positivity : (0:ℝ) ≤ D ^ 2 + ρ ^ 2)]
+  have : 0 < Real.sqrt (D ^ 2 + ρ ^ 2) := Real.sqrt_pos.mpr (by positivity)
+  norm_num; field_simp; ring
+
+/-- `⅛ (1/ρ − 2/√(D₂²+ρ²) + 1/√(2D₂²+ρ²))` -/
+theorem hppOfQ_of_rho {D ρ : ℝ} (hρ : 0 < ρ) :
+    hppOfQ Real.sqrt D (0.5 / ρ)
+      = 1 / 8 * (1 / ρ - 2 / Real.sqrt (D ^ 2 + ρ ^ 2) + 1 / Real.sqrt (2 * D ^ 2 + ρ ^ 2)) := by
+  have h1 : 4.0 * sqr D + 1.0 / sqr (0.5 / ρ) = 4 * (D ^ 2 + ρ ^ 2) := by
+    simp only [sqr]; norm_num; field_simp; ring
+  have h2 : 8.0 * sqr D + 1.0 / sqr (0.5 / ρ) = 4 * (2 * D ^ 2 + ρ ^ 2) := by
+    simp only [sqr]; norm_num; field_simp; ring
+  simp only [hppOfQ, isq, h1, h2, sqrt_four_mul (by positivity : (0:ℝ) ≤ D ^ 2 + ρ ^ 2),
+    sqrt_four_mul (by positivity : (0:ℝ) ≤ 2 * D ^ 2 + ρ ^ 2)]
+  have : 0 < Real.sqrt (D ^ 2 + ρ ^ 2) := Real.sqrt_pos.mpr (by positivity)
+  have : 0 < Real.sqrt (2 * D ^ 2 + ρ ^ 2) := Real.sqrt_pos.mpr (by positivity)
+  norm_num; field_simp; ring
+
+/-- published defining equation of `ρ₁`: the one-centre limit (`R = 0`, same atom) of the
+    dipole–dipole sum `[μ_π,μ_π]` with additive term `ρ₁+ρ₁` reproduces `h_sp` -/
+theorem dipole_self_interaction {ev D ρ : ℝ} (hρ : 0 < ρ) :
+    interactMP Real.sqrt ev 0 ⟨ρ, dipoleX D⟩ ⟨ρ, dipoleX D⟩
+      = ev * (1 / 4 * (1 / ρ - 1 / Real.sqrt (D ^ 2 + ρ ^ 2))) := by
+  have e : ∀ f : ℝ → ℝ, interactMP f ev 0 ⟨ρ, dipoleX D⟩ ⟨ρ, dipoleX D⟩
+      = ev * (1 / 2 * (1 / f (4 * ρ ^ 2)) - 1 / 2 * (1 / f (4 * (D ^ 2 + ρ ^ 2)))) := by
+    intro f; nddo_ring
+  rw [e Real.sqrt, sqrt_four_mul (by positivity), sqrt_four_mul (by positivity), Real.sqrt_sq hρ.le]
+  have : 0 < Real.sqrt (D ^ 2 + ρ ^ 2) := Real.sqrt_pos.mpr (by positivity)
+  field_simp; ring
+
+/-- published defining equation of `ρ₂`: one-centre limit of the square-quadrupole sum `[Q_xy,Q_xy]`
+    reproduces `h_pp = ½(g_pp − g_p2)` -/
+theorem quadrupole_self_interaction {ev D ρ : ℝ} (hρ : 0 < ρ) :
+    interactMP Real.sqrt ev 0 ⟨ρ, quadXY D⟩ ⟨ρ, quadXY D⟩
+      = ev * (1 / 8 * (1 / ρ - 2 / Real.sqrt (D ^ 2 + ρ ^ 2) + 1 / Real.sqrt (2 * D ^ 2 + ρ ^ 2))) := by
+  have e : ∀ f : ℝ → ℝ, interactMP f ev 0 ⟨ρ, quadXY D⟩ ⟨ρ, quadXY D⟩
+      = ev * (1 / 4 * (1 / f (4 * ρ ^ 2)) - 1 / 2 * (1 / f (4 * (D ^ 2 + ρ ^ 2)))
+          + 1 / 4 * (1 / f (4 * (2 * D ^ 2 + ρ ^ 2)))) := by
+    intro f; nddo_ring
+  rw [e Real.sqrt, sqrt_four_mul (by positivity), sqrt_four_mul (by positivity), sqrt_four_mul (by positivity),
+    Real.sqrt_sq hρ.le]
+  have : 0 < Real.sqrt (D ^ 2 + ρ ^ 2) := Real.sqrt_pos.mpr (by positivity)
+  have : 0 < Real.sqrt (2 * D ^ 2 + ρ ^ 2) := Real.sqrt_pos.mpr (by positivity)
+  field_simp; ring
+
+/-- a positive `ρ` is the additive term (= satisfies the published one-centre condition) iff the
+    residual of the code's root problem vanishes at `d = 0.5/ρ` -/
+theorem rho_residual_characterisation {ev : ℝ} (hev : 0 < ev) {ρ : ℝ} (hρ : 0 < ρ) (hsp_ev hpp_ev D1 D2 : ℝ) :
+    (rho1Residual Real.sqrt ev hsp_ev D1 ρ = 0 ↔
+        interactMP Real.sqrt ev 0 ⟨ρ, dipoleX D1⟩ ⟨ρ, dipoleX D1⟩ = hsp_ev) ∧
+    (rho2Residual Real.sqrt ev hpp_ev D2 ρ = 0 ↔
+        interactMP Real.sqrt ev 0 ⟨ρ, quadXY D2⟩ ⟨ρ, quadXY D2⟩ = hpp_ev) := by
+  constructor
+  · rw [dipole_self_interaction hρ, rho1Residual, hspOfD_of_rho hρ, sub_eq_zero, eq_div_iff hev.ne']
+    constructor <;> intro h <;> linarith
+  · rw [quadrupole_self_interaction hρ, rho2Residual, hppOfQ_of_rho hρ, sub_eq_zero, eq_div_iff hev.ne']
+    constructor <;> intro h <;> linarith
+
+
+
+
+/-- `ρ ↦ 1/ρ − 1/√(D²+ρ²)` is strictly decreasing on `ρ > 0` when `D ≠ 0` -/
+theorem g1_strictAnti {D a b : ℝ} (hD : D ≠ 0) (ha : 0 < a) (hab : a < b) :
+    1 / b - 1 / Real.sqrt (D ^ 2 + b ^ 2) < 1 / a - 1 / Real.sqrt (D ^ 2 + a ^ 2) := by
+  have hb : 0 < b := lt_trans ha hab
+  have hD2 : 0 < D ^ 2 := by have := pow_pos (abs_pos.mpr hD) 2; rwa [sq_abs] at this
+  set sa := Real.sqrt (D ^ 2 + a ^ 2) with hsa_def
+  set sb := Real.sqrt (D ^ 2 + b ^ 2) with hsb_def
+  have hsa2 : sa ^ 2 = D ^ 2 + a ^ 2 := Real.sq_sqrt (by positivity)
+  have hsb2 : sb ^ 2 = D ^ 2 + b ^ 2 := Real.sq_sqrt (by positivity)
+  have hasa : a < sa := Real.lt_sqrt_of_sq_lt (by linarith)
+  have hbsb : b < sb := Real.lt_sqrt_of_sq_lt (by linarith)
+  have hsa : 0 < sa := lt_trans ha hasa
+  have hsb : 0 < sb := lt_trans hb hbsb
+  have hsasb : sa < sb := Real.sqrt_lt_sqrt (by positivity) (by nlinarith)
+  have h1 : (sb - b) * (sb + b) = D ^ 2 := by linear_combination hsb2
+  have h2 : (sa - a) * (sa + a) = D ^ 2 := by linear_combination hsa2
+  have hA : a * sa * (sa + a) < b * sb * (sb + b) := by
+    have : a * sa < b * sb := mul_lt_mul'' hab hsasb ha.le hsa.le
+    exact mul_lt_mul'' this (by linarith) (by positivity) (by positivity)
+  have key : (sb - b) * (a * sa) * ((sa + a) * (sb + b)) < (sa - a) * (b * sb) * ((sa + a) * (sb + b)) := by
+    calc (sb - b) * (a * sa) * ((sa + a) * (sb + b)) = D ^ 2 * (a * sa * (sa + a)) := by
+            linear_combination (a * sa * (sa + a)) * h1
+      _ < D ^ 2 * (b * sb * (sb + b)) := mul_lt_mul_of_pos_left hA hD2
+      _ = (sa - a) * (b * sb) * ((sa + a) * (sb + b)) := by
+            linear_combination (-(b * sb * (sb + b))) * h2
+  have key2 : (sb - b) * (a * sa) < (sa - a) * (b * sb) := lt_of_mul_lt_mul_right key (by positivity)
+  rw [div_sub_div _ _ hb.ne' hsb.ne', div_sub_div _ _ ha.ne' hsa.ne', div_lt_div_iff₀ (by positivity) (by positivity)]
+  linarith
+
+/-- the residual of the `ρ₁` problem is strictly decreasing in `ρ` on `ρ > 0` (for `D₁ ≠ 0`) -/
+theorem rho1_residual_strictAnti {ev : ℝ} (hsp_ev : ℝ) {D : ℝ} (hD : D ≠ 0) :
+    StrictAntiOn (fun ρ => rho1Residual Real.sqrt ev hsp_ev D ρ) (Set.Ioi 0) := by
+  intro a ha b hb hab
+  simp only [Set.mem_Ioi] at ha hb
+  simp only [rho1Residual, hspOfD_of_rho ha, hspOfD_of_rho hb]
+  have := g1_strictAnti hD ha hab
+  linarith
+
+/-- hence the additive term `ρ₁` is unique: two positive roots of the residual coincide -/
+theorem rho1_unique {ev hsp_ev D ρ ρ' : ℝ} (hD : D ≠ 0) (h : 0 < ρ) (h' : 0 < ρ')
+    (hr : rho1Residual Real.sqrt ev hsp_ev D ρ = 0) (hr' : rho1Residual Real.sqrt ev hsp_ev D ρ' = 0) :
+    ρ = ρ' := by
+  have hs := rho1_residual_strictAnti (ev := ev) hsp_ev hD
+  exact hs.injOn (Set.mem_Ioi.mpr h) (Set.mem_Ioi.mpr h') (by simp only [hr, hr'])
+
+/-- non-vacuity: `D₁ = 4`, `ρ₁ = 3`: residual zero for `h_sp/ev = ¼(1/3 − 1/5) = 1/30` -/
+example : rho1Residual Real.sqrt 30 1 4 3 = 0 := by
+  rw [rho1Residual, hspOfD_of_rho (by norm_num)]
+  rw [show (4:ℝ) ^ 2 + 3 ^ 2 = 5 ^ 2 by norm_num, Real.sqrt_sq (by norm_num)]
+  norm_num
+
+
+
+/-- auxiliary symmetric function: `1/ρ − 2/σ + 1/τ = 2 D⁴ · F3 ρ σ τ` when `σ² = D²+ρ²`, `τ² = 2D²+ρ²` -/
+noncomputable def F3 (x y z : ℝ) : ℝ := (x + y + z) / (x * y * z * ((x + y) * (y + z) * (z + x)))
+
+theorem F3_anti_first {x x' y z : ℝ} (hx : 0 < x) (hxx : x < x') (hy : 0 < y) (hz : 0 < z) :
+    F3 x' y z < F3 x y z := by
+  have hx' : 0 < x' := lt_trans hx hxx
+  obtain ⟨h, hh, rfl⟩ : ∃ h, 0 < h ∧ x' = x + h := ⟨x' - x, by linarith, by ring⟩
+  unfold F3
+  rw [div_lt_div_iff₀ (by positivity) (by positivity)]
+  have e : (x + y + z) * ((x + h) * y * z * ((x + h + y) * (y + z) * (z + (x + h))))
+         - (x + h + y + z) * (x * y * z * ((x + y) * (y + z) * (z + x)))
+         = y * z * (y + z) * h * (h ^ 2 * x + h ^ 2 * y + h ^ 2 * z + 3 * h * x ^ 2 + 4 * h * x * y + 4 * h * x * z
+            + h * y ^ 2 + 2 * h * y * z + h * z ^ 2 + 2 * x ^ 3 + 4 * x ^ 2 * y + 4 * x ^ 2 * z + 2 * x * y ^ 2
+            + 4 * x * y * z + 2 * x * z ^ 2 + y ^ 2 * z + y * z ^ 2) := by ring
+  have p : 0 < y * z * (y + z) * h * (h ^ 2 * x + h ^ 2 * y + h ^ 2 * z + 3 * h * x ^ 2 + 4 * h * x * y + 4 * h * x * z
+            + h * y ^ 2 + 2 * h * y * z + h * z ^ 2 + 2 * x ^ 3 + 4 * x ^ 2 * y + 4 * x ^ 2 * z + 2 * x * y ^ 2
+            + 4 * x * y * z + 2 * x * z ^ 2 + y ^ 2 * z + y * z ^ 2) := by positivity
+  linarith
+
+theorem F3_perm (x y z : ℝ) : F3 x y z = F3 y x z ∧ F3 x y z = F3 z y x := by
+  unfold F3; constructor <;> ring
+
+theorem F3_anti {a b sa sb ta tb : ℝ} (ha : 0 < a) (hab : a < b) (hsa : 0 < sa) (hs : sa < sb)
+    (hta : 0 < ta) (ht : ta < tb) : F3 b sb tb < F3 a sa ta := by
+  have hb := lt_trans ha hab
+  have hsb := lt_trans hsa hs
+  have htb := lt_trans hta ht
+  calc F3 b sb tb < F3 a sb tb := F3_anti_first ha hab hsb htb
+    _ = F3 sb a tb := (F3_perm _ _ _).1
+    _ < F3 sa a tb := F3_anti_first hsa hs ha htb
+    _ = F3 tb a sa := (F3_perm _ _ _).2
+    _ < F3 ta a sa := F3_anti_first hta ht ha hsa
+    _ = F3 sa a ta := (F3_perm _ _ _).2
+    _ = F3 a sa ta := (F3_perm _ _ _).1
+
+theorem h2_eq_F3 {D ρ : ℝ} (hρ : 0 < ρ) :
+    1 / ρ - 2 / Real.sqrt (D ^ 2 + ρ ^ 2) + 1 / Real.sqrt (2 * D ^ 2 + ρ ^ 2)
+      = 2 * D ^ 4 * F3 ρ (Real.sqrt (D ^ 2 + ρ ^ 2)) (Real.sqrt (2 * D ^ 2 + ρ ^ 2)) := by
+  set s := Real.sqrt (D ^ 2 + ρ ^ 2)
+  set t := Real.sqrt (2 * D ^ 2 + ρ ^ 2)
+  have hs2 : s ^ 2 = D ^ 2 + ρ ^ 2 := Real.sq_sqrt (by positivity)
+  have ht2 : t ^ 2 = 2 * D ^ 2 + ρ ^ 2 := Real.sq_sqrt (by positivity)
+  have hs : 0 < s := Real.sqrt_pos.mpr (by positivity)
+  have ht : 0 < t := Real.sqrt_pos.mpr (by positivity)
+  have num : (s * t - 2 * ρ * t + ρ * s) * ((ρ + s) * (s + t) * (t + ρ)) = 2 * D ^ 4 * (ρ + s + t) := by
+    linear_combination ((ρ + t) * (ρ ^ 2 + ρ * s + s * t + t ^ 2)) * hs2
+      + (D ^ 2 * ρ + D ^ 2 * s + D ^ 2 * t - ρ ^ 3 - ρ ^ 2 * s - ρ ^ 2 * t - ρ * s * t) * ht2
+  have e1 : 1 / ρ - 2 / s + 1 / t = (s * t - 2 * ρ * t + ρ * s) / (ρ * s * t) := by
+    field_simp
+  have e2 : 2 * D ^ 4 * F3 ρ s t = (2 * D ^ 4 * (ρ + s + t)) / ((ρ + s) * (s + t) * (t + ρ)) / (ρ * s * t) := by
+    unfold F3; field_simp
+  rw [e1, e2, ← num]
+  field_simp
+
+/-- the residual of the `ρ₂` problem is strictly decreasing in `ρ` on `ρ > 0` (for `D₂ ≠ 0`) -/
+theorem rho2_residual_strictAnti {ev : ℝ} (hpp_ev : ℝ) {D : ℝ} (hD : D ≠ 0) :
+    StrictAntiOn (fun ρ => rho2Residual Real.sqrt ev hpp_ev D ρ) (Set.Ioi 0) := by
+  intro a ha b hb hab
+  simp only [Set.mem_Ioi] at ha hb
+  simp only [rho2Residual, hppOfQ_of_rho ha, hppOfQ_of_rho hb, h2_eq_F3 ha, h2_eq_F3 hb]
+  have hD4 : 0 < D ^ 4 := by
+    have := pow_pos (abs_pos.mpr hD) 4
+    rwa [show |D| ^ 4 = D ^ 4 by rw [show (4:ℕ) = 2 * 2 by norm_num, pow_mul, pow_mul, sq_abs]] at this
+  have hF := F3_anti ha hab (Real.sqrt_pos.mpr (by positivity : (0:ℝ) < D ^ 2 + a ^ 2))
+    (Real.sqrt_lt_sqrt (by positivity) (by nlinarith : D ^ 2 + a ^ 2 < D ^ 2 + b ^ 2))
+    (Real.sqrt_pos.mpr (by positivity : (0:ℝ) < 2 * D ^ 2 + a ^ 2))
+    (Real.sqrt_lt_sqrt (by positivity) (by nlinarith : 2 * D ^ 2 + a ^ 2 < 2 * D ^ 2 + b ^ 2))
+  nlinarith
+
+theorem rho2_unique {ev hpp_ev D ρ ρ' : ℝ} (hD : D ≠ 0) (h : 0 < ρ) (h' : 0 < ρ')
+    (hr : rho2Residual Real.sqrt ev hpp_ev D ρ = 0) (hr' : rho2Residual Real.sqrt ev hpp_ev D ρ' = 0) :
+    ρ = ρ' := by
+  have hs := rho2_residual_strictAnti (ev := ev) hpp_ev hD
+  exact hs.injOn (Set.mem_Ioi.mpr h) (Set.mem_Ioi.mpr h') (by simp only [hr, hr'])
+
+
 end C06
